@@ -1,20 +1,24 @@
-"""C07 DeferredQueue: explicit-state search over the real queue, lock-step FIFO reference."""
+"""C07 DeferredQueue: explicit-state search over the real queue, lock-step FIFO reference.
+Gets may carry a re-entrant callback (re-issue get(), or put() a fresh object) so that the queue is
+also exercised from inside the callback of a get that is being satisfied."""
 from mc.bfs import bfs
 from mc.runner import Stats
 
 ID = "C07"
 LEVEL = "model_checking"
-RULE = ("BFS over histories of put(fresh)/get/cancel(pending get k) on a real DeferredQueue for every "
-        "(size, backlog) in {None,0,1,2,3}^2; every transition is executed on the real object and compared "
-        "with a list-based FIFO reference (delivery target, order, QueueOverflow/QueueUnderflow). "
-        "non-trivial = distinct canonical states in which a limit was hit, a get was pending or a cancel happened")
-BOUNDS = {"quick": "depth 12", "thorough": "depth 16"}
-ASSUMPTIONS = ["canonical state = (config, queued values and pending gets relative to the put/get counters, "
-               "Deferred.called flags); completed gets are dropped because neither the queue nor the harness "
-               "references them again"]
-MIN = {"quick": {"states": 1500, "nontrivial": 1000, "outcomes": 5}}
+RULE = ("BFS over histories of put(fresh) / get / get whose callback re-issues get() / get whose callback puts a fresh "
+        "object / cancel(pending get k) on a real DeferredQueue for every (size, backlog) in {None,0,1,2}^2; every "
+        "transition is executed on the real object and its event log (puts, gets, deliveries, QueueOverflow/"
+        "QueueUnderflow, including the nested ones made from callbacks) is compared with a list-based FIFO reference. "
+        "non-trivial = distinct canonical states in which a limit was hit, a get was pending, a cancel or a re-entrant call happened")
+BOUNDS = {"quick": "depth 8", "thorough": "depth 10"}
+ASSUMPTIONS = ["canonical state = (config, queued values and pending gets relative to the put/get counters with their callback kind, "
+               "Deferred.called flags); completed gets are dropped because neither the queue nor the harness references them again",
+               "a re-entrant callback acts once (one nested get or put), after the object was delivered to it"]
+MIN = {"quick": {"states": 40000, "nontrivial": 35000, "outcomes": 6}}
 
-LIMS = [None, 0, 1, 2, 3]
+LIMS = [None, 0, 1, 2]
+KINDS = ["plain", "reget", "put"]
 
 
 class St:
@@ -23,102 +27,142 @@ class St:
         self.q = DeferredQueue(size, backlog)
         self.size, self.backlog = size, backlog
         self.nput = 0
-        self.gets = []      # dicts: d, got(list), failed(list)
-        self.m_pending = []  # reference: queued values
-        self.m_waiting = []  # reference: indices of pending gets, oldest first
-        self.m_expect = {}   # get index -> list of expected deliveries
+        self.gets = []       # real side: dicts d, kind, cancelled
+        self.rlog = []       # real event log
+        self.mlog = []       # reference event log
+        self.m_pending = []
+        self.m_waiting = []  # indices of pending gets, oldest first
+        self.m_kind = {}
+        self.m_nget = 0
+        self.m_nput = 0
         self.bad = []
         self.flags = set()
 
+    # ---- reference model ---------------------------------------------------------------------
+    def m_deliver(self, g, v):
+        self.mlog.append(("deliver", g, v))
+        k = self.m_kind[g]
+        if k == "reget":
+            self.flags.add("reentrant-get")
+            self.m_get("plain")
+        elif k == "put":
+            self.flags.add("reentrant-put")
+            self.m_put()
+
+    def m_put(self):
+        v = self.m_nput
+        self.m_nput += 1
+        if self.m_waiting:
+            g = self.m_waiting.pop(0)
+            self.m_deliver(g, v)
+            self.mlog.append(("put", v, None))
+        elif self.size is None or len(self.m_pending) < self.size:
+            self.m_pending.append(v)
+            self.mlog.append(("put", v, None))
+        else:
+            self.flags.add("overflow")
+            self.mlog.append(("put", v, "QueueOverflow"))
+
+    def m_get(self, kind):
+        g = self.m_nget
+        self.m_nget += 1
+        self.m_kind[g] = kind
+        if self.m_pending:
+            v = self.m_pending.pop(0)
+            self.mlog.append(("get", g, None))
+            self.m_deliver(g, v)
+        elif self.backlog is None or len(self.m_waiting) < self.backlog:
+            self.m_waiting.append(g)
+            self.flags.add("pending-get")
+            self.mlog.append(("get", g, None))
+        else:
+            self.flags.add("underflow")
+            self.mlog.append(("get", g, "QueueUnderflow"))
+
+    # ---- real side ------------------------------------------------------------------------------
+    def r_put(self):
+        from twisted.internet.defer import QueueOverflow, QueueUnderflow
+        v = self.nput
+        self.nput += 1
+        try:
+            self.q.put(v)
+            self.rlog.append(("put", v, None))
+        except (QueueOverflow, QueueUnderflow) as e:
+            self.rlog.append(("put", v, type(e).__name__))
+
+    def r_get(self, kind):
+        from twisted.internet.defer import QueueOverflow, QueueUnderflow
+        g = len(self.gets)
+        rec = {"d": None, "kind": kind, "cancelled": False}
+        self.gets.append(rec)
+        try:
+            d = self.q.get()
+        except (QueueOverflow, QueueUnderflow) as e:
+            self.rlog.append(("get", g, type(e).__name__))
+            return
+        rec["d"] = d
+        self.rlog.append(("get", g, None))
+
+        def cb(v, g=g, kind=kind):
+            self.rlog.append(("deliver", g, v))
+            if kind == "reget":
+                self.r_get("plain")
+            elif kind == "put":
+                self.r_put()
+
+        def eb(f, g=g):
+            self.rlog.append(("failed", g, f.type.__name__))
+        d.addCallbacks(cb, eb)
+
 
 def apply(st, ev):
-    from twisted.internet.defer import QueueOverflow, QueueUnderflow, CancelledError
     op = ev[0]
     if op == "put":
-        v = st.nput
-        st.nput += 1
-        # reference
-        if st.m_waiting:
-            g = st.m_waiting.pop(0)
-            st.m_expect[g].append(v)
-            exp = None
-        elif st.size is None or len(st.m_pending) < st.size:
-            st.m_pending.append(v)
-            exp = None
-        else:
-            exp = QueueOverflow
-            st.flags.add("overflow")
-        try:
-            st.q.put(v)
-            got = None
-        except (QueueOverflow, QueueUnderflow) as e:
-            got = type(e)
-        if got is not exp:
-            st.bad.append(("put-exception", "put #%d raised %s, reference %s" % (
-                v, got and got.__name__, exp and exp.__name__)))
+        st.m_put()
+        st.r_put()
     elif op == "get":
-        idx = len(st.gets)
-        if st.m_pending:
-            st.m_expect[idx] = [st.m_pending.pop(0)]
-            exp = None
-        elif st.backlog is None or len(st.m_waiting) < st.backlog:
-            st.m_expect[idx] = []
-            st.m_waiting.append(idx)
-            exp = None
-            st.flags.add("pending-get")
-        else:
-            exp = QueueUnderflow
-            st.flags.add("underflow")
-        rec = {"d": None, "got": [], "failed": [], "cancelled": False}
-        try:
-            d = st.q.get()
-            rec["d"] = d
-            d.addCallbacks(rec["got"].append, lambda f, rec=rec: rec["failed"].append(f.type))
-            got = None
-        except (QueueOverflow, QueueUnderflow) as e:
-            got = type(e)
-        st.gets.append(rec)
-        if got is not exp:
-            st.bad.append(("get-exception", "get #%d raised %s, reference %s" % (
-                idx, got and got.__name__, exp and exp.__name__)))
-        if exp is not None:
-            st.m_expect[idx] = None
+        st.m_get(ev[1])
+        st.r_get(ev[1])
     elif op == "cancel":
-        idx = st.m_waiting[ev[1]]
-        st.m_waiting.remove(idx)
-        st.m_expect[idx] = "cancelled"
-        st.gets[idx]["cancelled"] = True
-        st.gets[idx]["d"].cancel()
+        g = st.m_waiting[ev[1]]
+        st.m_waiting.remove(g)
+        st.mlog.append(("failed", g, "CancelledError"))
         st.flags.add("cancel")
+        st.gets[g]["cancelled"] = True
+        st.gets[g]["d"].cancel()
 
 
 def enabled(st):
-    evs = [("put",), ("get",)]
+    evs = [("put",)] + [("get", k) for k in KINDS]
     for k in range(len(st.m_waiting)):
         evs.append(("cancel", k))
     return evs
 
 
 def invariant(st, hist):
-    from twisted.internet.defer import CancelledError
     out = list(st.bad)
-    for i, rec in enumerate(st.gets):
-        exp = st.m_expect.get(i)
-        if exp is None:
-            continue
-        if exp == "cancelled":
-            if rec["got"]:
-                out.append(("delivered-to-cancelled-get", "get #%d was cancelled but received %r" % (i, rec["got"])))
-            elif rec["failed"] != [CancelledError]:
-                out.append(("cancelled-get-result", "get #%d: %r" % (i, rec["failed"])))
-            continue
-        if rec["got"] != exp or rec["failed"]:
-            kind = "duplicate-delivery" if len(rec["got"]) > 1 else \
-                   "lost-or-misordered-delivery"
-            out.append((kind, "get #%d received %r (failures %r), reference %r" % (i, rec["got"], rec["failed"], exp)))
-    # real queue agrees with the reference about what is still queued
-    if list(st.q.pending) != st.m_pending:
-        out.append(("queued-objects-differ", "queue holds %r, reference %r" % (st.q.pending, st.m_pending)))
+    if st.rlog != st.mlog:
+        n = next((i for i, (a, b) in enumerate(zip(st.rlog, st.mlog)) if a != b), min(len(st.rlog), len(st.mlog)))
+        r = st.rlog[n] if n < len(st.rlog) else None
+        m = st.mlog[n] if n < len(st.mlog) else None
+        if r and m and r[0] == m[0] == "get" and r[2] != m[2]:
+            kind = "get-exception"
+        elif r and m and r[0] == m[0] == "put" and r[2] != m[2]:
+            kind = "put-exception"
+        elif r and r[0] == "deliver" and any(x[0] == "deliver" and x[2] == r[2] for x in st.rlog[:n]):
+            kind = "duplicate-delivery"
+        elif r and r[0] == "deliver" and r[1] < len(st.gets) and st.gets[r[1]]["cancelled"]:
+            kind = "delivered-to-cancelled-get"
+        else:
+            kind = "lost-or-misordered-delivery"
+        nested = any(st.m_kind.get(g) in ("reget", "put") for g in st.m_kind)
+        out.append((kind + (":with-reentrant-callback" if nested else ""),
+                    "event %d: queue did %r, reference %r (logs %r vs %r)" % (n, r, m, st.rlog[-6:], st.mlog[-6:])))
+    try:
+        if list(st.q.pending) != st.m_pending:
+            out.append(("queued-objects-differ", "queue holds %r, reference %r" % (st.q.pending, st.m_pending)))
+    except AttributeError:
+        pass
     return out
 
 
@@ -126,9 +170,9 @@ def canon(st):
     q = st.q
     ng = len(st.gets)
     idx = {id(r["d"]): i for i, r in enumerate(st.gets) if r["d"] is not None}
-    return (tuple(v - st.nput for v in q.pending),
-            tuple((idx.get(id(d), 99) - ng, d.called) for d in q.waiting),
-            tuple(i - ng for i in st.m_waiting))
+    return (tuple(v - st.nput for v in getattr(q, "pending", ())),
+            tuple((idx.get(id(d), 99) - ng, d.called) for d in getattr(q, "waiting", ())),
+            tuple((g - ng, st.m_kind[g]) for g in st.m_waiting))
 
 
 def shards(tier, seed):
@@ -137,7 +181,7 @@ def shards(tier, seed):
 
 def run_shard(shard, tier, seed):
     size, backlog = shard
-    depth = 12 if tier == "quick" else 16
+    depth = 8 if tier == "quick" else 10
     stats = Stats()
 
     def on_state(st, hist):
@@ -145,7 +189,7 @@ def run_shard(shard, tier, seed):
             stats.nt((shard, canon(st)))
         for f in st.flags:
             stats.outcome(f)
-        stats.outcome("delivered" if any(r["got"] for r in st.gets) else "nothing-delivered")
+        stats.outcome("delivered" if any(e[0] == "deliver" for e in st.rlog) else "nothing-delivered")
 
     res = bfs(lambda: St(size, backlog), apply, enabled, canon, invariant, depth, on_state=on_state)
     stats.add_bfs(res, {"config": [size, backlog]})
@@ -156,7 +200,6 @@ def run_shard(shard, tier, seed):
 def replay(w):
     size, backlog = w["config"]
     st = St(size, backlog)
-    out = []
-    for i, ev in enumerate(w["history"]):
+    for ev in w["history"]:
         apply(st, tuple(ev))
     return invariant(st, w["history"])
